@@ -147,4 +147,40 @@ def cancelAll (s : State) : State :=
 /-- `Shutdown` followed by the departure of every parked call -/
 def shutdown (s : State) : State := reapAll (cancelAll s)
 
+/-! ### 4. whole schedules: what the driver runs between two observation points
+
+A schedule is a list of blocks; a block is a list of events of the refined system (the atomic events of the base model —
+instructions, worker steps, daemon effects / answers / faults —, the refined `Recover` / `RecoverAll`, the daemon's read
+fault switching on or off, and `stabilize`, the run to a stable point the harness waits for); the observation is taken after
+every block. The activity between the entries of `RecoverAll` is restricted to the workers and the daemon (the other
+instructions of a sequential schedule come before or after it). -/
+
+inductive EvR where
+  | base (e : Ev)
+  | recover (c : Nat)
+  | recoverAll (items : List (List Ev × Nat))
+  | lsFail (on : Bool)
+  | stabilize
+  deriving Repr
+
+structure MState where
+  s : State
+  ls : Bool          -- the daemon's reads work
+
+def stepR (cfg : Cfg) (m : MState) : EvR → MState
+  | .base e => { m with s := step cfg m.s e }
+  | .recover c => { m with s := (recoverR cfg m.s m.ls c).1 }
+  | .recoverAll items => { m with s := (recoverAllR cfg m.s m.ls (items.map (fun it => (it.1.filter internalOnly, it.2)))).1 }
+  | .lsFail on => { m with ls := !on }
+  | .stabilize => { m with s := CV.C05.stabilize cfg m.s }
+
+def runR (cfg : Cfg) (m : MState) (es : List EvR) : MState := es.foldl (stepR cfg) m
+
+/-- the observation after every block -/
+def obsTrace (cfg : Cfg) : MState → List (List EvR) → List Obs
+  | _, [] => []
+  | m, b :: rest => observeR (runR cfg m b).s (runR cfg m b).ls :: obsTrace cfg (runR cfg m b) rest
+
+def m0 : MState := { s := init, ls := true }
+
 end CV.C05
